@@ -27,11 +27,14 @@ type SpecEnv struct {
 	depth   int
 	bound   int
 	boundNames map[string]bool
+	atExit     bool // evaluating the verified function's own postcondition
 }
 
 type specLoc struct {
-	loc   *Loc
-	whole bool // whole backing array (s[*])
+	loc    *Loc
+	whole  bool // whole backing array (s[*])
+	mapRef string
+	mapTy  *types.Map
 }
 
 var untypedInt = types.Typ[types.UntypedInt]
@@ -458,6 +461,16 @@ func (e *SpecEnv) callExpr(n *ast.CallExpr) Val {
 			}
 			o.vars = mv
 			return o.expr(n.Args[0])
+		case "locked":
+			// state at the first lock acquisition of the function (linearisation point);
+			// at a call site (sequential reasoning) it is the pre-state
+			o := *e
+			if e.u.lockState != nil && e.atExit {
+				o.st = e.u.lockState
+			} else {
+				o.st = e.old
+			}
+			return o.expr(n.Args[0])
 		case "implies":
 			return Val{T: implies(e.expr(n.Args[0]).T, e.expr(n.Args[1]).T), Ty: types.Typ[types.Bool]}
 		case "iff":
@@ -467,6 +480,8 @@ func (e *SpecEnv) callExpr(n *ast.CallExpr) Val {
 			return Val{T: ite(e.expr(n.Args[0]).T, a.T, b.T), Ty: ty}
 		case "forall", "exists":
 			return e.quant(id.Name, n)
+		case "all", "some":
+			return e.quantAny(id.Name, n)
 		case "min", "max":
 			a, b, ty := e.unify(e.expr(n.Args[0]), e.expr(n.Args[1]))
 			op := "<="
@@ -602,6 +617,41 @@ func (e *SpecEnv) quant(kind string, n *ast.CallExpr) Val {
 		return Val{T: fmt.Sprintf("(forall ((%s Int)) (=> %s %s))", bvN, rng, bodyT), Ty: boolT}
 	}
 	return Val{T: fmt.Sprintf("(exists ((%s Int)) (and %s %s))", bvN, rng, bodyT), Ty: boolT}
+}
+
+// quantAny: all(func(k T) bool {...}) / some(...): unbounded quantifier over a sort.
+func (e *SpecEnv) quantAny(kind string, n *ast.CallExpr) Val {
+	boolT := types.Typ[types.Bool]
+	fl, ok := n.Args[0].(*ast.FuncLit)
+	if len(n.Args) != 1 || !ok || len(fl.Type.Params.List) != 1 || len(fl.Type.Params.List[0].Names) != 1 {
+		e.errf("%s needs a func(x T) bool literal", kind)
+		return Val{T: "true", Ty: boolT}
+	}
+	name := fl.Type.Params.List[0].Names[0].Name
+	ty := e.typeOf(fl.Type.Params.List[0].Type)
+	if ty == nil {
+		e.errf("%s: unknown parameter type", kind)
+		return Val{T: "true", Ty: boolT}
+	}
+	e.u.qn++
+	bv := fmt.Sprintf("%s_q%d", name, e.u.qn)
+	vars := map[string]Val{}
+	for k, v := range e.vars {
+		vars[k] = v
+	}
+	vars[name] = Val{T: bv, Ty: ty}
+	ne := e.with(vars)
+	bn := map[string]bool{name: true}
+	for k := range e.boundNames {
+		bn[k] = true
+	}
+	ne.boundNames = bn
+	body := ne.stmts(fl.Body.List, boolT)
+	inv := e.u.em.typeInv(bv, ty)
+	if kind == "all" {
+		return Val{T: fmt.Sprintf("(forall ((%s %s)) %s)", bv, e.u.em.sortOf(ty), implies(inv, body.T)), Ty: boolT}
+	}
+	return Val{T: fmt.Sprintf("(exists ((%s %s)) %s)", bv, e.u.em.sortOf(ty), and(inv, body.T)), Ty: boolT}
 }
 
 // rebase rewrites a quantifier over a slice index i into one over the absolute
@@ -961,6 +1011,9 @@ func (e *SpecEnv) lvalue(x ast.Expr) []specLoc {
 		}
 	case *ast.IndexExpr:
 		a := e.expr(n.X)
+		if mt, ok := a.Ty.Underlying().(*types.Map); ok {
+			return []specLoc{{mapRef: a.T, mapTy: mt}}
+		}
 		sl, ok := a.Ty.Underlying().(*types.Slice)
 		if !ok {
 			e.errf("assigns: index on non-slice")
